@@ -946,3 +946,35 @@ Proof.
   rewrite Hg'. cbn [bind]. rewrite (wrap_i32 g Hi). cbn [as_int bind arith]. destruct (Z.leb_spec 7 g); [|lia]. cbn [b2z truth negb Z.eqb].
   rewrite exec_seq, exec_expr. cbn [eval bind memm]. rewrite callx_S, x_ex_show_none. rewrite Hshow. cbn [bind]. rewrite exec_return. reflexivity.
 Qed.
+
+(* ------------------------------------------------------------------ the translated loops run; the oracle hypotheses are satisfiable *)
+Lemma loops_run :
+  let NB := length cglobals in
+  let blk0 := repeat (VInt (-1)) 32 ++ repeat (VInt 0) 32 ++
+              [VPtr (NB + 1) 0; VPtr (NB + 2) 0; VInt 3; VInt 4; VInt 1; VInt 0; VInt 0; VInt 0; VInt 0; VInt 0; VInt 0] in
+  let m0 := upd (upd cglobals G_bufs (upd gb_bufs 33 (VPtr NB 0))) G_xgdep [VInt 1]
+            ++ [blk0; [VPtr 0 0; VPtr 0 0; VPtr 0 0; VInt 0]; [VInt 0; VInt 0; VInt 4; VInt 77]; [VInt 3]] in
+  let st i m := ST (VInt 0) (VInt 0) (VInt 0) (VInt 0) (VInt 0) 0 0 0 (NB + 3) 0 false i (VInt 0) m in
+  let l0 := ExDefs.mklb [ExDefs.mkline 0 0 [97]; ExDefs.mkline 1 0 [98]; ExDefs.mkline 2 4 [99]]%N [] [] 0 1 0 0 3 in
+  let m1 := upd m0 (NB + 2) [VInt 0; VInt 2; VInt 6; VInt 77] in
+  exec (callf cprog 10 3) 10 mark_loop (st 1 m0) = ONormal (st 3 m1) /\
+  map ExDefs.lgl (ExDefs.lns (ExDefs.globset_range 2 1 1 l0)) = [0; 2; 6]%N /\
+  exec (callf cprog 10 3) 10 scan_loop (st 0 m1) = ONormal (st 1 (upd m0 (NB + 2) [VInt 0; VInt 0; VInt 6; VInt 77])) /\
+  fst (ExDefs.glob_scan 0 1 (ExDefs.globset_range 2 1 1 l0)) = 1%nat /\
+  map ExDefs.lgl (ExDefs.lns (snd (ExDefs.glob_scan 0 1 (ExDefs.globset_range 2 1 1 l0)))) = [0; 0; 6]%N /\
+  exec (callf cprog 10 3) 10 sweep_loop (st 0 m1) = ONormal (st 3 (upd m0 (NB + 2) [VInt 0; VInt 0; VInt 4; VInt 77])) /\
+  map ExDefs.lgl (ExDefs.lns (ExDefs.globclear 3 0 1 (ExDefs.globset_range 2 1 1 l0))) = [0; 0; 4]%N /\
+  (forall bre b5 fr B pat body bs os,
+     let ext := fun (f : nat) (_ : list val) (m : mem) => if Nat.eqb f X_rstr_find || Nat.eqb f X_ex_exec then Ok (VInt 0, m) else Err EShape in
+     find_oracle ext bre b5 fr B (fun _ _ _ => Some (0, 0)%nat) pat /\
+     exec_oracle ext fr B (fun _ s => (s, 0)) body bs os /\ exec_keeps_depth (fun _ s => (s, 0)) body).
+Proof.
+  cbv zeta. split; [vm_compute; reflexivity|]. split; [vm_compute; reflexivity|]. split; [vm_compute; reflexivity|].
+  split; [vm_compute; reflexivity|]. split; [vm_compute; reflexivity|]. split; [vm_compute; reflexivity|]. split; [vm_compute; reflexivity|].
+  intros bre b5 fr B pat body bs os. split; [|split].
+  - intros m s y gblk i x p o S0 _ _ _. exists 0, m. rewrite Nat.eqb_refl. cbn [orb]. split; [reflexivity|]. split; [unfold i32; lia|].
+    split; [reflexivity|]. split; [exact S0|intros b _; reflexivity].
+  - intros m s S0. exists 0, m. rewrite Nat.eqb_refl, orb_true_r. split; [reflexivity|]. split; [reflexivity|].
+    split; [exact S0|intros b _; reflexivity].
+  - intro s. reflexivity.
+Qed.
